@@ -53,7 +53,9 @@ CLAIMED = {
              "well-typed in-budget programs for both module types; each is replayed on the real library lifted to N=N0*t (t up to "
              "16384) under both dispatch configurations, and after every call the written object is projected to integers (DFT and "
              "prepared objects through the library's own idft/apply) and compared, every other object byte-compared. Exploration: "
-             "the program space is sampled, the oracle is the specification.",
+             "the program space is sampled, the oracle is the specification. The linear prefix of every program is replayed once more "
+             "with all initial data multiplied by the constant that takes the largest intermediate value to the top of the value range "
+             "(int64 for coefficient vectors and NTT120, 2^40 for FFT64); the in-place inverse DFT is an action for both module types.",
         design_ref="DESIGN.md section 4 C16",
         note="Trusted: TLC, the ring embedding X->Y^t (commutes with every modelled operation), small operands so that FFT64 results "
              "are exact. Program space sampled (seeded by VERIF_SEED).",
@@ -67,7 +69,9 @@ CLAIMED = {
              "definition, no address outside the prepared matrix, scratch within *_tmp_bytes, termination, layout injective and "
              "exactly filling bytes_of_vmp_pmat. All 576 shapes with concrete matrices (expected product computed by TLC) are "
              "replayed on the real library lifted to N=2..65536, both entry points (from integers / from DFT), AVX and generic "
-             "dispatch, exact-size scratch; dense random shapes up to 8x8 are recorded and re-computed by TLC.",
+             "dispatch, exact-size scratch; random shapes up to 8x8 (dense, null limbs, null matrix entries / rows / columns, unit vectors; "
+             "strides N..4N with zeros or a pattern between the limbs; a prepared buffer that held another matrix) are recorded and "
+             "re-computed by TLC.",
         design_ref="DESIGN.md section 4 C02",
         note="Trusted: TLC; results projected through the library's own vec_znx_idft; small operands (exact FFT64 regime). Shapes "
              "outside the box only sampled.",
@@ -81,7 +85,8 @@ CLAIMED = {
              "the exact negacyclic product, the norms, the domain predicate and E, demanding |d| <= E+1/2 (hence exactness when "
              "E<1/2); (3) at N up to 4096 (thorough 65536) deviation and norms are measured against the reference model's exact "
              "int128 product and TLC decides the summary. Operands come from adversarial families scaled to the exactness edge and "
-             "the budget edge. Exploration: inputs are sampled; the bound E itself is measured, not derived.",
+             "the budget edge, plus every coefficient at +-2^47..2^49 at N = 32768 / 65536 (1-norm beyond 64 bits) times a sparse operand. "
+             "Exploration: inputs are sampled; the bound E itself is measured, not derived.",
         design_ref="DESIGN.md section 4 C01, section 6",
         note="Trusted: TLC + Wide.tla, the C reference product at scale (uniform schoolbook loop), ceil-sqrt loosening (<=1e-9 relative). "
              "The library's real error is 100-1000x below E, so only gross precision loss violates the E clause; the sharp parts are "
@@ -120,11 +125,13 @@ CLAIMED = {
              "(SimpleCache.tla: process-wide and thread-local slots, catalogue of the 20 cached functions with their keys) for 2-3 "
              "threads, warm and cold start: after the documented warm-up no write to a process-wide slot and no race, the table "
              "used always matches the call, module-level calls reach no slot (call graph), and a cold-start race is reachable "
-             "(witness). Recorded executions of the real library - 16 threads over 14 module/table-level and 8 *_simple operation "
-             "groups on shared MODULE/PRECOMP objects, warm and cold (first use included), totally ordered by the sequence number "
+             "(witness). Recorded executions of the real library - 16 threads over 27 module/table/kernel-level and 8 *_simple operation "
+             "groups (each in three variants that differ by their data; table-free kernels called directly in both variants; runs under "
+             "the accelerated and under the portable dispatch) on shared MODULE/PRECOMP objects, warm and cold (first use included), "
+             "totally ordered by the sequence number "
              "taken inside the hook - are validated by TLC (SimpleCacheTrace.tla): no cache event inside a module/table call, no "
              "miss after warm-up, every call returns the hash of its sequential execution. A ThreadSanitizer build observes warm "
-             "runs; the writable static storage of the built library is compared with the slot inventory.",
+             "runs (both dispatches) and a cold run of module-level operations; the writable static storage of the built library is compared with the slot inventory.",
         design_ref="DESIGN.md section 4 C12",
         note="Trusted: TLC, the hooks' global sequence number, TSan as observer. A race that neither changes an output in the runs, "
              "nor is hooked, nor is seen by TSan is invisible. Cold-start races inside *_simple are allowed (documented protocol).",
@@ -137,7 +144,10 @@ CLAIMED = {
              "replayed: every logical call must return the same bytes at every occurrence and on a freshly built table, under "
              "other buffer offsets (0..56) and prefills; the hook events (which table, which parameters) are validated by TLC. "
              "API programs are replayed twice with different prefills/offsets/interleaved unrelated calls and the raw bytes of "
-             "every defined object must coincide after every step.",
+             "every defined object must coincide after every step. Lifecycle.tla describes the storage behind modules and tables (own "
+             "table / shared and counted: safe; shared and freed by the first delete: the witness); recorded life cycles - several live "
+             "objects of every table kind and of FFT64 modules, creations and deletes in between - are validated by TLC "
+             "(LifecycleTrace.tla): a result is a function of (kind, dimension, data) only.",
         design_ref="DESIGN.md section 4 C15",
         note="Trusted: TLC, sha256 of outputs. Histories longer than the simulated ones are not explored. reim_to_tnx32_simple is "
              "keyed by dimension only but its kernels are stubs that abort: no in-domain call, recorded in the catalogue.",
@@ -150,7 +160,8 @@ CLAIMED = {
              "exponent, order, shifted half), by impulse probes with arbitrary 64-bit lane content for every n=2..65536 and by "
              "products of transforms against the negacyclic product computed by TLC (n<=16), all validated by TLC in residue "
              "arithmetic; round trips and linearity on extremal lanes for every n and NTT120 vec_znx_dft->idft/_tmp_a on "
-             "INT64_MIN/MAX for all size/stride combinations are compared on all lanes by the harness and summarised.",
+             "INT64_MIN/MAX for all size/stride combinations, and the life cycles of several live NTT120 modules of one dimension "
+             "(deletes and creations in between), are compared on all lanes by the harness and summarised.",
         design_ref="DESIGN.md section 4 C03",
         note="Trusted: TLC; lane residues computed by the harness with %; only the AVX2 NTT exists (no second implementation). "
              "Full-lane comparisons of round trips are done by the harness (TLC receives the mismatch count).",
